@@ -102,6 +102,60 @@ pub struct Shared {
     mapper_p: cur::ProguardMapper<'static>,
     cache: cur::ProguardCache<'static>,
     mapping: cur::ProguardMapping<'static>,
+    /// only for the warm configurations (scripts >= WARM_OP0): a mapping of BIG_CLASSES classes
+    big: Option<Big>,
+}
+pub struct Big {
+    mapper: cur::ProguardMapper<'static>,
+    cache: cur::ProguardCache<'static>,
+}
+/// number of base scripts (all ordered pairs of these are explored)
+pub const BASE_OPS: usize = 16;
+/// script 16: sections of the shared mapping
+pub const SECTION_OP: usize = 16;
+/// scripts 17..: warm configurations, op = WARM_OP0 + kind * 4 + subject * 2 + role
+pub const WARM_OP0: usize = 17;
+pub const WARM_KINDS: usize = 6;
+const BIG_CLASSES: usize = 1100;
+/// capacities C of a hypothetical bounded memo inside the shared handle: the handle first serves C distinct queries
+/// of one kind (so that a ring / LRU of that capacity is exactly full and its oldest entry is the next victim), then
+/// one thread re-asks the oldest ones while the other asks new ones
+pub const WARM_CAPS: [usize; 10] = [8, 16, 32, 64, 100, 128, 256, 512, 1000, 1024];
+static BIG: std::sync::atomic::AtomicBool = std::sync::atomic::AtomicBool::new(false);
+static WARM: std::sync::atomic::AtomicUsize = std::sync::atomic::AtomicUsize::new(0);
+static WARM_KIND: std::sync::atomic::AtomicUsize = std::sync::atomic::AtomicUsize::new(0);
+
+fn big_mapping() -> &'static [u8] {
+    static TEXT: std::sync::OnceLock<&'static [u8]> = std::sync::OnceLock::new();
+    TEXT.get_or_init(|| {
+        let mut t = String::new();
+        for i in 0..BIG_CLASSES {
+            t.push_str(&format!("o.C{} -> c{:04}:\n    1:3:void m{}(int):10:12 -> m\n", i, i, i));
+        }
+        crate::ast::leak_bytes(t.as_bytes())
+    })
+}
+fn big_cache_bytes() -> &'static [u8] {
+    static BYTES: std::sync::OnceLock<&'static Aligned> = std::sync::OnceLock::new();
+    BYTES.get_or_init(|| Box::leak(Box::new(Aligned::new(&cur::write_cache(big_mapping()).expect("write"))))).as_slice()
+}
+/// one query of `kind` for class number `i` of the big mapping on the mapper (subject 0) or the cache (subject 1)
+fn big_query(b: &Big, kind: usize, subject: usize, i: usize) -> String {
+    let c = format!("c{:04}", i);
+    match (kind, subject) {
+        (0, 0) => format!("{:?}", b.mapper.remap_class(&c)),
+        (0, _) => format!("{:?}", b.cache.remap_class(&c)),
+        (1, 0) => format!("{:?}", b.mapper.remap_method(&c, "m")),
+        (1, _) => format!("{:?}", b.cache.remap_method(&c, "m")),
+        (2, 0) => format!("{:?}", b.mapper.remap_frame(&cur::StackFrame::with_file(&c, "m", 2, "F.java")).collect::<Vec<_>>()),
+        (2, _) => format!("{:?}", b.cache.remap_frame(&cur::StackFrame::with_file(&c, "m", 2, "F.java")).collect::<Vec<_>>()),
+        (3, 0) => format!("{:?}", b.mapper.remap_frame(&cur::StackFrame::with_parameters(&c, "m", "int")).collect::<Vec<_>>()),
+        (3, _) => format!("{:?}", b.cache.remap_frame(&cur::StackFrame::with_parameters(&c, "m", "int")).collect::<Vec<_>>()),
+        (4, 0) => format!("{:?}", b.mapper.deobfuscate_signature(&format!("(L{};I)V", c)).map(|d| d.format_signature())),
+        (4, _) => format!("{:?}", b.cache.deobfuscate_signature(&format!("(L{};I)V", c)).map(|d| d.format_signature())),
+        (_, 0) => format!("{:?}", b.mapper.remap_stacktrace(&format!("{}: boom\n    at {}.m(F.java:2)\n", c, c))),
+        (_, _) => format!("{:?}", b.cache.remap_stacktrace(&format!("{}: boom\n    at {}.m(F.java:2)\n", c, c))),
+    }
 }
 // Deliberately forced: whether the library's types really are Send / Sync is decided by the run-time
 // gate above and reported as a C20 violation naming the type; it must not turn into a build failure of
@@ -121,10 +175,23 @@ fn build_shared() -> Shared {
         mapper_p: cur::ProguardMapper::new_with_param_mapping(cur::ProguardMapping::new(MAPPING), true),
         cache: cur::ProguardCache::parse(cache_bytes()).expect("parse"),
         mapping: cur::ProguardMapping::new(MAPPING),
+        big: if BIG.load(Ordering::Relaxed) {
+            let b = Big { mapper: cur::ProguardMapper::new_with_param_mapping(cur::ProguardMapping::new(big_mapping()), true), cache: cur::ProguardCache::parse(big_cache_bytes()).expect("parse") };
+            // warm-up: the handle has served WARM distinct queries of one kind before the threads start
+            let (w, k) = (WARM.load(Ordering::Relaxed), WARM_KIND.load(Ordering::Relaxed));
+            for i in 0..w {
+                for subject in 0..2 {
+                    std::hint::black_box(big_query(&b, k, subject, i));
+                }
+            }
+            Some(b)
+        } else {
+            None
+        },
     }
 }
 
-pub const OPS: [&str; 16] = [
+pub const OPS: [&str; 41] = [
     "mapper.remap_class",
     "mapper.remap_method",
     "mapper.remap_frame by line (iterator steps)",
@@ -141,6 +208,13 @@ pub const OPS: [&str; 16] = [
     "cache.remap_stacktrace",
     "cache.remap_stacktrace_typed",
     "cache.deobfuscate_signature",
+    "mapping.section(..) uuid / summary / has_line_info / is_valid",
+    "warm:mapper.remap_class oldest", "warm:mapper.remap_class fresh", "warm:cache.remap_class oldest", "warm:cache.remap_class fresh",
+    "warm:mapper.remap_method oldest", "warm:mapper.remap_method fresh", "warm:cache.remap_method oldest", "warm:cache.remap_method fresh",
+    "warm:mapper.remap_frame-by-line oldest", "warm:mapper.remap_frame-by-line fresh", "warm:cache.remap_frame-by-line oldest", "warm:cache.remap_frame-by-line fresh",
+    "warm:mapper.remap_frame-by-parameters oldest", "warm:mapper.remap_frame-by-parameters fresh", "warm:cache.remap_frame-by-parameters oldest", "warm:cache.remap_frame-by-parameters fresh",
+    "warm:mapper.deobfuscate_signature oldest", "warm:mapper.deobfuscate_signature fresh", "warm:cache.deobfuscate_signature oldest", "warm:cache.deobfuscate_signature fresh",
+    "warm:mapper.remap_stacktrace oldest", "warm:mapper.remap_stacktrace fresh", "warm:cache.remap_stacktrace oldest", "warm:cache.remap_stacktrace fresh",
 ];
 
 const TEXTS: [&str; 3] = ["a: boom\n    at a.m(F.java:2)\n", "b\n    at b.n(F.java:1)\nCaused by: a: x\n    at a.m(F.java:5)\n", "zz: u\n    at a.n(F.java:9)\n"];
@@ -220,6 +294,24 @@ pub fn run_script(op: usize, steps: usize, sh: &'static Shared, pause: &dyn Fn()
             for _ in 0..steps {
                 pause();
                 obs.push(format!("{:?}", it.next()));
+            }
+        }
+        SECTION_OP => {
+            // sections of the shared mapping: the first class block (no line info, no compiler header) and the rest
+            let cut = MAPPING.windows(2).position(|w| w[0] == b'\n' && w[1] != b' ' && w[1] != b'#').map(|p| p + 1).unwrap_or(MAPPING.len() / 2);
+            for k in 0..steps {
+                pause();
+                let sec = if k % 2 == 0 { sh.mapping.section(0..cut) } else { sh.mapping.section(cut..MAPPING.len()) };
+                let su = sec.summary();
+                obs.push(format!("{} {:?} {} {} {} {}", sec.uuid(), su.compiler(), su.class_count(), su.method_count(), sec.has_line_info(), sec.is_valid()));
+            }
+        }
+        op if op >= WARM_OP0 => {
+            let (kind, subject, role) = ((op - WARM_OP0) / 4, ((op - WARM_OP0) / 2) % 2, (op - WARM_OP0) % 2);
+            let big = sh.big.as_ref().expect("big objects are built for warm scripts");
+            for k in 0..steps {
+                pause();
+                obs.push(big_query(big, kind, subject, if role == 0 { k } else { BIG_CLASSES - 40 + k }));
             }
         }
         _ => {
@@ -404,7 +496,9 @@ fn wp_explore(scripts: &[usize], steps: usize, solo: &[Vec<String>], bound: usiz
         }
         let watch_now = watch.clone();
         let mut run = |prefix: &[usize]| -> Result<wp::Exec, String> {
-            let (shb, region) = wp::build_in_arena(|| Box::new(build_shared()));
+            // built by a thread of its own: std's RandomState keys are per thread (first use: getrandom - owned through
+            // the shim - then incremented per table), so every execution's hash tables get the same seeds
+            let (shb, region) = std::thread::scope(|s| s.spawn(|| wp::build_in_arena(|| Box::new(build_shared()))).join()).map_err(|_| "building the shared objects panicked".to_string())?;
             let sh: &'static Shared = Box::leak(shb);
             let sched: &'static wp::Sched = Box::leak(Box::new(wp::Sched::new(k, prefix.to_vec())));
             wp::set_current(sched as *const wp::Sched as *mut wp::Sched);
@@ -475,7 +569,12 @@ fn wp_explore(scripts: &[usize], steps: usize, solo: &[Vec<String>], bound: usiz
         let b = run(&[])?;
         let key = |x: &wp::Exec| x.grants.iter().map(|(t, kd)| (*t, match kd { wp::Kind::Call => (0usize, 0usize), wp::Kind::Mem { write, off, .. } => (1 + usize::from(*write), *off) })).collect::<Vec<_>>();
         if key(&a) != key(&b) && !(a.timing || b.timing) {
-            return Err(format!("the default schedule is not deterministic: {:?} vs {:?}", key(&a), key(&b)));
+            // The subject's stores into the shared objects differ between two runs of the same schedule (e.g. a hash
+            // table inside the shared objects whose seed the harness does not own, or address-dependent code).
+            // That is less coverage (the step-level schedulers still decide this configuration), never a verdict and
+            // not a machinery error: the exploration of this phase is left out and reported as capped.
+            totals[format!("phase{}", phase)] = json!({"executions": 2, "choice_points": 0, "mem_points": 0, "abandoned": 0, "stuck": 0, "timing_divergences": 0, "capped": true, "max_preemptions": 0, "nondeterministic_default_schedule": true});
+            break;
         }
         let st = wp::explore(bound, cap, std::time::Duration::from_secs(wall_s), &mut run)?;
         totals[format!("phase{}", phase)] = json!({"executions": st.executions, "choice_points": st.choice_points, "mem_points": st.mem_points, "abandoned": st.abandoned, "stuck": st.stuck, "timing_divergences": st.timing_divergences, "capped": st.capped, "max_preemptions": st.max_preemptions});
@@ -553,7 +652,14 @@ pub fn config_main(args: &[String]) -> i32 {
     let mode = args.first().map(|s| s.as_str()).unwrap_or("shuttle");
     let steps: usize = args.get(1).and_then(|s| s.parse().ok()).unwrap_or(3);
     let scripts: Vec<usize> = args.get(2).map(|s| s.split(',').filter_map(|x| x.parse().ok()).collect()).unwrap_or_default();
+    // warm configurations: solo answers come from an unwarmed handle, the executions warm theirs first
+    let warm: usize = std::env::var("PGMC_C20_WARM").ok().and_then(|s| s.parse().ok()).unwrap_or(0);
+    BIG.store(scripts.iter().any(|&o| o >= WARM_OP0), Ordering::Relaxed);
     let solo = Arc::new(solo_observations(steps));
+    if let Some(&o) = scripts.iter().find(|&&o| o >= WARM_OP0) {
+        WARM_KIND.store((o - WARM_OP0) / 4, Ordering::Relaxed);
+        WARM.store(warm, Ordering::Relaxed);
+    }
     let out = if mode == "wp-canary" {
         match wp_canary() {
             Ok(v) => v,
@@ -586,10 +692,23 @@ pub fn config_main(args: &[String]) -> i32 {
 /// preemption bound of the wp scheduler for this run (2 quick, 3 thorough; a replay takes it from the case)
 static WP_BOUND: std::sync::atomic::AtomicUsize = std::sync::atomic::AtomicUsize::new(2);
 
+/// configuration processes run under the getrandom shim (when it was built): the seeds of std's RandomState are then
+/// the same in every execution, so a hash table inside the shared objects does not make the schedules irreproducible
+fn shim_env() -> Vec<(String, String)> {
+    let p = format!("{}/shim/getrandom_shim.so", verif_dir());
+    if std::path::Path::new(&p).exists() {
+        vec![("LD_PRELOAD".to_string(), p), ("PGMC_HASH_SEED".to_string(), "7".to_string())]
+    } else {
+        Vec::new()
+    }
+}
 fn run_config(mode: &str, scripts: &[usize], steps: usize) -> Result<Value, String> {
+    run_config_w(mode, scripts, steps, 0)
+}
+fn run_config_w(mode: &str, scripts: &[usize], steps: usize, warm: usize) -> Result<Value, String> {
     let exe = std::env::current_exe().map_err(|e| e.to_string())?;
     let list = scripts.iter().map(|s| s.to_string()).collect::<Vec<_>>().join(",");
-    let o = std::process::Command::new(exe).args(["c20-config", mode, &steps.to_string(), &list]).env("PGMC_CHILD", "1").env("PGMC_WP_BOUND", WP_BOUND.load(Ordering::Relaxed).to_string()).env("PGMC_WP_CAP", if WP_BOUND.load(Ordering::Relaxed) > 2 { "20000" } else { "1500" }).env("PGMC_WP_WALL_S", if WP_BOUND.load(Ordering::Relaxed) > 2 { "60" } else { "8" }).stderr(std::process::Stdio::null()).output().map_err(|e| e.to_string())?;
+    let o = std::process::Command::new(exe).args(["c20-config", mode, &steps.to_string(), &list]).env("PGMC_CHILD", "1").env("PGMC_C20_WARM", warm.to_string()).envs(shim_env()).env("PGMC_WP_BOUND", WP_BOUND.load(Ordering::Relaxed).to_string()).env("PGMC_WP_CAP", if WP_BOUND.load(Ordering::Relaxed) > 2 { "20000" } else { "1500" }).env("PGMC_WP_WALL_S", if WP_BOUND.load(Ordering::Relaxed) > 2 { "60" } else { "8" }).stderr(std::process::Stdio::null()).output().map_err(|e| e.to_string())?;
     if !o.status.success() {
         return Err(format!("configuration process ended with {:?}", o.status));
     }
@@ -600,7 +719,7 @@ fn run_config(mode: &str, scripts: &[usize], steps: usize) -> Result<Value, Stri
 
 fn solo_observations(steps: usize) -> Vec<Vec<String>> {
     let sh: &'static Shared = Box::leak(Box::new(build_shared()));
-    (0..OPS.len()).map(|op| run_script(op, steps, sh, &|| {})).collect()
+    (0..OPS.len()).map(|op| if op >= WARM_OP0 && sh.big.is_none() { Vec::new() } else { run_script(op, steps, sh, &|| {}) }).collect()
 }
 
 fn mismatch_case(m: &Mismatch) -> Value {
@@ -837,34 +956,51 @@ pub fn run(tier: Tier) -> i32 {
     if gate_failed {
         acc.notes.push("the type gate failed: schedule exploration and free-running pass skipped (sharing a non-Sync value between threads would be undefined behaviour)".into());
     }
-    let mut configs: Vec<(Vec<usize>, usize)> = Vec::new();
-    for a in 0..OPS.len() {
-        for b in 0..OPS.len() {
-            configs.push((vec![a, b], 3));
+    let mut configs: Vec<(Vec<usize>, usize, usize)> = Vec::new();
+    for a in 0..BASE_OPS {
+        for b in 0..BASE_OPS {
+            configs.push((vec![a, b], 3, 0));
+        }
+    }
+    // sections of the shared mapping against the mapping scripts (record iteration, uuid / summary) and themselves
+    for pair in [[SECTION_OP, SECTION_OP], [8, SECTION_OP], [SECTION_OP, 8], [7, SECTION_OP], [SECTION_OP, 7]] {
+        configs.push((pair.to_vec(), 3, 0));
+    }
+    // warm configurations: the shared handle has served C distinct queries of one kind; thread A re-asks the oldest
+    // ones while thread B asks new ones (a full bounded memo evicts exactly what A is reading)
+    for kind in 0..WARM_KINDS {
+        for subject in 0..2 {
+            let oldest = WARM_OP0 + kind * 4 + subject * 2;
+            for &c in WARM_CAPS.iter() {
+                if !t && ![16usize, 64, 256, 1024].contains(&c) {
+                    continue;
+                }
+                configs.push((vec![oldest, oldest + 1], 3, c));
+            }
         }
     }
     if t {
-        for a in 0..OPS.len() {
-            for b in a..OPS.len() {
-                configs.push((vec![a, b], 5));
+        for a in 0..BASE_OPS {
+            for b in a..BASE_OPS {
+                configs.push((vec![a, b], 5, 0));
             }
         }
         let six = [0usize, 2, 3, 7, 11, 12];
         for a in six {
             for b in six {
                 for c in six {
-                    configs.push((vec![a, b, c], 2));
+                    configs.push((vec![a, b, c], 2, 0));
                 }
             }
         }
         // a few triples with 3 steps each
-        for tri in [[2usize, 11, 7], [3, 12, 8], [0, 9, 2], [11, 11, 2], [7, 7, 7], [12, 3, 11]] {
-            configs.push((tri.to_vec(), 3));
+        for tri in [[2usize, 11, 7], [3, 12, 8], [0, 9, 2], [11, 11, 2], [7, 7, 7], [12, 3, 11], [8, SECTION_OP, SECTION_OP]] {
+            configs.push((tri.to_vec(), 3, 0));
         }
     } else {
         // one 3-thread family in the quick tier: the iterator scripts
         for tri in [[2usize, 11, 7], [3, 12, 8], [0, 9, 2]] {
-            configs.push((tri.to_vec(), 2));
+            configs.push((tri.to_vec(), 2, 0));
         }
     }
     let solo3 = Arc::new(solo_observations(3));
@@ -879,23 +1015,24 @@ pub fn run(tier: Tier) -> i32 {
             false
         }
     };
-    let mut jobs: Vec<(&'static str, Vec<usize>, usize)> = Vec::new();
-    for (sc, st) in &configs {
-        jobs.push(("shuttle", sc.clone(), *st));
+    let mut jobs: Vec<(&'static str, Vec<usize>, usize, usize)> = Vec::new();
+    for (sc, st, warm) in &configs {
+        let warm = *warm;
+        jobs.push(("shuttle", sc.clone(), *st, warm));
         // baton: interleavings grow as (k*steps)!/(steps!)^k; 3 threads x 3 steps (1680 each) is left to shuttle
         if sc.len() * st <= 6 || (t && sc.len() == 2) {
-            jobs.push(("baton", sc.clone(), *st));
+            jobs.push(("baton", sc.clone(), *st, warm));
         }
         if wp_available {
-            jobs.push(("wp", sc.clone(), *st));
+            jobs.push(("wp", sc.clone(), *st, warm));
         }
     }
     if wp_available {
-        jobs.push(("wp-canary", vec![], 1));
+        jobs.push(("wp-canary", vec![], 1, 0));
     }
     let nconf = jobs.len();
-    let sub = par_run(&jobs, &budget, |(mode, scripts, steps), acc, _| {
-        match run_config(mode, scripts, *steps) {
+    let sub = par_run(&jobs, &budget, |(mode, scripts, steps, warm), acc, _| {
+        match run_config_w(mode, scripts, *steps, *warm) {
             Ok(v) if v.get("machinery").is_some() => {
                 eprintln!("MACHINERY-ERROR: {} scheduler, scripts {:?} x {} steps: {}", mode, scripts, steps, v["machinery"]);
                 std::process::exit(2);
@@ -935,6 +1072,7 @@ pub fn run(tier: Tier) -> i32 {
                     let op = scripts.get(thread).copied().unwrap_or(0);
                     let mut case = m.clone();
                     case["mode"] = json!(mode);
+                    case["warm"] = json!(warm);
                     case["wp_bound"] = json!(WP_BOUND.load(Ordering::Relaxed));
                     acc.violation(format!("schedule:{}:{}", mode, OPS[op].split(' ').next().unwrap_or("")), scripts.len() * 10 + steps, || {
                         (format!("[{}] thread {} running '{}' concurrently with {:?} observed {}, alone it observes {} (interleaving of steps: {})", mode, thread, OPS[op], scripts.iter().map(|&i| OPS[i]).collect::<Vec<_>>(), m["observed"], m["expected"], m["interleaving"]), case.clone())
@@ -976,7 +1114,7 @@ pub fn run(tier: Tier) -> i32 {
                 let (solo3, bad) = (&solo3, &bad);
                 s.spawn(move || {
                     for round in 0..200 {
-                        let op = (ti + round) % OPS.len();
+                        let op = (ti + round) % (SECTION_OP + 1);
                         let obs = run_script(op, 3, sh, &|| {});
                         if obs != solo3[op] {
                             *bad.lock().unwrap() = Some(format!("{} threads: '{}' observed {:?}", nthreads, OPS[op], obs));
@@ -1003,8 +1141,8 @@ pub fn run(tier: Tier) -> i32 {
         prop: "C20",
         tier,
         level: "model_checking",
-        rule: format!("type gate: Send and Sync of {} public handle / iterator / result types (run-time evaluated auto-trait table). Schedules: every configuration is explored three times, each time in a pristine subprocess: by shuttle's exhaustive DFS (tasks under shuttle's scheduler), by a baton scheduler over real OS threads (all interleavings of the steps; thread-locals behave as in production), and by the wp scheduler (real OS threads; the shared objects are built in an arena whose pages are then write-protected, so that every store of the subject into them faults and becomes a scheduling point inside the call, single-stepped with the x86 trap flag; when stores were seen a second phase also makes every load of a stored-to location a point; stateless DFS over harness points + memory points with preemption bound {}; the default schedule is run twice and must produce the identical grant sequence; a replayed prefix that does not fit is a hard machinery error); the threads share one mapper, one mapper-with-index, one parsed cache and one mapping; {} thread configurations: all {} ordered pairs of the 16 scripts x 3 steps{}; a scheduling point before every API call and every iterator step; oracle: every thread observes exactly what its script observes alone. History pass: back-to-back queries on one shared cache / mapper (one thread, and two OS threads taking turns) for pairs of class names that collide under ten common 32-bit fingerprints, for a mapping of 70000 classes queried at index distances 65535 / 65536, and for one method with 33..401 ranges in non-ascending file order whose lines are asked in seven sequences (ascending, descending, alternating, hopping; hits only and hits mixed with misses). states = schedules (complete executions); transitions = steps executed; distinct = distinct (configuration, schedule count)", table.len(), if t { 3 } else { 2 }, nconf, OPS.len() * OPS.len(), if t { ", all unordered pairs x 5 steps, all triples over 6 scripts x 2 steps, six triples x 3 steps" } else { ", three 3-thread configurations x 2 steps" }),
-        bounds: json!({"scripts": OPS, "configurations": nconf, "mapping": esc(MAPPING)}),
+        rule: format!("type gate: Send and Sync of {} public handle / iterator / result types (run-time evaluated auto-trait table). Schedules: every configuration is explored three times, each time in a pristine subprocess: by shuttle's exhaustive DFS (tasks under shuttle's scheduler), by a baton scheduler over real OS threads (all interleavings of the steps; thread-locals behave as in production), and by the wp scheduler (real OS threads; the shared objects are built in an arena whose pages are then write-protected, so that every store of the subject into them faults and becomes a scheduling point inside the call, single-stepped with the x86 trap flag; when stores were seen a second phase also makes every load of a stored-to location a point; stateless DFS over harness points + memory points with preemption bound {}; the default schedule is run twice and must produce the identical grant sequence; a replayed prefix that does not fit is a hard machinery error); the threads share one mapper, one mapper-with-index, one parsed cache and one mapping; {} thread configurations: all {} ordered pairs of the 16 base scripts x 3 steps, the section script (uuid / summary / has_line_info / is_valid of two sections of the shared mapping) against itself and the mapping scripts, and the warm configurations (6 query kinds x {{mapper, cache}} x memo capacities C: a 1100-class handle first serves C distinct queries of the kind, then thread A re-asks the oldest three while thread B asks three new ones){}; a scheduling point before every API call and every iterator step; oracle: every thread observes exactly what its script observes alone. History pass: back-to-back queries on one shared cache / mapper (one thread, and two OS threads taking turns) for pairs of class names that collide under ten common 32-bit fingerprints, for a mapping of 70000 classes queried at index distances 65535 / 65536, and for one method with 33..401 ranges in non-ascending file order whose lines are asked in seven sequences (ascending, descending, alternating, hopping; hits only and hits mixed with misses). states = schedules (complete executions); transitions = steps executed; distinct = distinct (configuration, schedule count)", table.len(), if t { 3 } else { 2 }, nconf, BASE_OPS * BASE_OPS, if t { ", all unordered pairs x 5 steps, all triples over 6 scripts x 2 steps, six triples x 3 steps" } else { ", three 3-thread configurations x 2 steps" }),
+        bounds: json!({"scripts": OPS.to_vec(), "configurations": nconf, "mapping": esc(MAPPING), "warm_capacities": WARM_CAPS.to_vec()}),
         assumptions,
         trusted_base: vec!["rustc/std (auto traits)".into(), "shuttle 0.9.3 DFS scheduler".into(), "pgmc/src/wp.rs (arena allocator, mprotect + SIGSEGV/SIGTRAP single-stepping, preemption-bounded DFS)".into(), "Linux mprotect / x86-64 trap flag semantics".into()],
     };
@@ -1021,7 +1159,7 @@ pub fn recheck(case: &Value) -> Vec<String> {
             if let Some(b) = case["wp_bound"].as_u64() {
                 WP_BOUND.store(b as usize, Ordering::Relaxed);
             }
-            match run_config(mode, &scripts, steps) {
+            match run_config_w(mode, &scripts, steps, case["warm"].as_u64().unwrap_or(0) as usize) {
                 Ok(v) => {
                     if let Some(p) = v.get("panic").and_then(|p| p.as_str()) {
                         vec![format!("panic:{}", panic_site(p))]
@@ -1053,7 +1191,7 @@ pub fn recheck(case: &Value) -> Vec<String> {
                         let (solo, bad) = (&solo, &bad);
                         s.spawn(move || {
                             for round in 0..200 {
-                                let op = (ti + round) % OPS.len();
+                                let op = (ti + round) % (SECTION_OP + 1);
                                 if run_script(op, 3, sh, &|| {}) != solo[op] {
                                     bad.store(true, Ordering::Relaxed);
                                 }
